@@ -42,7 +42,7 @@ theorem c40_same_path (lhs rhs : Obj) (sel : Sel) (ps : List Pair) (h : assign l
       Chain c'.lc c'.lhs ul l ∧ Chain c'.R.1 c'.R.2 ur r ∧
       p.lpath = q ++ ul ∧ p.rpath = q ++ ur ∧ p.flow = flowOf c'.lc l c'.R.1 r ∧
       p.checked = (isVC c'.lc l || isVC c'.R.1 r ||
-        ((c'.ls || !ul.isEmpty || explicit c'.lc l) && (c'.rs || !ur.isEmpty || explicit c'.R.1 r))) ∧
+        ((strictAfter c'.ls ul l || explicit c'.lc l) && (strictAfter c'.rs ur r || explicit c'.R.1 r))) ∧
       (p.checked = true → shapeEq (shapeOf c'.lc l) (shapeOf c'.R.1 r) = true) := by
   intro p hp
   obtain ⟨c', hreach, _, hleaf⟩ := c40_sound lhs rhs sel ps h p hp
@@ -129,6 +129,20 @@ def raisesValueError (r : Except Err (List Pair)) : Bool :=
   match r with
   | .error .valueError => true
   | _ => false
+
+/-- enum-shaped members: a `data.Const` member of an `enum.Enum` class is strict and carries its class as shape -
+    into a plain 3-bit member it raises, into a member of the same class it is assigned; an `IntEnum` member is an
+    int and is assigned unchecked (truncated) -/
+example :
+    raisesValueError (assign (ofLayout (.struct (.cons "a" (.leaf 3 false) (.cons "b" (.leaf 2 false) .nil))) 0 0 true)
+      (ofConst (.struct (.cons "a" (.enum 3 1 false) (.cons "b" (.leaf 2 false) .nil))) 13) (.mode .all)) = true ∧
+    ((assign (ofLayout (.struct (.cons "a" (.enum 3 1 false) (.cons "b" (.leaf 2 false) .nil))) 0 0 true)
+      (ofConst (.struct (.cons "a" (.enum 3 1 false) (.cons "b" (.leaf 2 false) .nil))) 13) (.mode .all)).toOption.map
+        (·.map (·.checked))) = some [true, false] ∧
+    ((assign (ofLayout (.struct (.cons "a" (.leaf 1 false) (.cons "b" (.leaf 2 false) .nil))) 0 0 true)
+      (ofConst (.struct (.cons "a" (.enum 3 7 true) (.cons "b" (.leaf 2 false) .nil))) 13) (.mode .all)).toOption.map
+        (·.map (·.checked))) = some [false, false] := by
+  decide
 
 /-- regression examples of the two repaired defects: F-b7-1 `assign(Signal(4), Signal(StructLayout({"a": signed(3)})))`
     now raises (ValueError: shapes differ) in both directions; F-b7-2 an ArrayProxy over views of an ArrayLayout
